@@ -125,10 +125,10 @@ PROPS = {
     },
     "C09": {
         "rule": "endpoint with 1..4 workers and a shared Rest::Router; 2..8 keep-alive clients x 1..6 requests with unique tags over routed methods, "
-                "unrouted paths (404/405) and methods without any route, 12 % of the request bodies spanning several receive buffers; shutdown() after the load or at a drawn instant in the middle of it, then "
+                "unrouted paths (404/405) and methods without any route, 12 % of the request bodies spanning several receive buffers, 5 % of the runs with a crowd of 70..120 clients that send at the same instant; shutdown() after the load or at a drawn instant in the middle of it, then "
                 "destruction; thread stalls injected; plain and ThreadSanitizer builds; e2e_client_server: the endpoint (1..3 workers, replies also from an application thread, streams, files) "
                 "under the real HTTP client instead of scripted peers, shut down in mid-load in a fifth of the runs; " + NONTRIVIAL,
-        "probes_expected": ["request-larger-than-a-receive-buffer", "aborted-at-accept", "shutdown-from-handler", "blocking-serve", "kind-echo", "kind-async", "kind-stream", "shutdown-idle", "shutdown-with-load", "shutdown-with-connections-open", "shutdown-with-requests-in-flight",
+        "probes_expected": ["crowd", "request-larger-than-a-receive-buffer", "aborted-at-accept", "shutdown-from-handler", "blocking-serve", "kind-echo", "kind-async", "kind-stream", "shutdown-idle", "shutdown-with-load", "shutdown-with-connections-open", "shutdown-with-requests-in-flight",
                             "method-not-allowed", "not-found", "method-without-route-table", "late-client"],
         "assumptions": [],
         "quick": {"batches": [("c09_serving", "plain", 15000), ("c09_serving", "tsan", 2500), ("c09_serving", "tsanat", 6000),
@@ -164,7 +164,7 @@ PROPS = {
         "rule": "plans (1..4 producers x 1..5 pushes, start delays, gaps, prefill, pollable or plain queue) and schedules "
                 "(uniform random / PCT / sticky) drawn from VERIF_SEED; c13_transport: the queues' real consumers - the event loops of Tcp::Transport - with 2..8 connections arriving at about "
                 "the same time on 1..2 workers and an application thread that arms response time-outs (timers queue) and sends replies (writes queue) for them back to back; " + NONTRIVIAL,
-        "probes_expected": ["consumer-woken", "prefilled-before-consumer", "plain-queue", "kind-tmoasync", "kind-async", "kind-async-gone", "kind-busy"],
+        "probes_expected": ["consumer-woken", "prefilled-before-consumer", "plain-queue", "kind-tmoasync", "kind-async", "kind-async-gone", "kind-busy", "crowd"],
         "assumptions": ["single consumer (as in Pistache's own use of the queue)"],
         "quick": {"batches": [("c13_queue", "plain", 150000), ("c13_queue", "tsan", 15000), ("c13_queue", "tsanat", 30000), ("c13_transport", "plain", 20000), ("c13_transport", "tsan", 2000)], "chunk": 2000},
         "thorough": {"batches": [("c13_queue", "plain", 1000000), ("c13_queue", "tsan", 150000), ("c13_queue", "tsanat", 300000), ("c13_transport", "plain", 300000), ("c13_transport", "tsan", 30000), ("c13_transport", "tsanat", 30000)], "chunk": 5000},
